@@ -66,6 +66,7 @@ class Ctx:
         self.obligations = 0
         self.discharged = 0
         self.axioms = {}            # theorem -> axioms it depends on (from #print axioms on this run)
+        self.rerun_hangs = []       # ops whose 'hang' verdict did not reproduce alone
         self.known, self.fixed = core.load_known()
         self.known = [k for k in self.known if k["property"] == prop.id]
         self.fixed = [k for k in self.fixed if k["property"] == prop.id]
@@ -131,7 +132,11 @@ def confirm_hangs(ctx, binp, pairs):
             try:
                 rc, again, se = core.run_corr("run", 0, 0, ctx.tier, corr_bin=binp, stdin_ops=op + "\n", timeout=900)
                 if again and again[0][1] != "hang":
-                    ctx.notes.append("op re-run alone after a wall-clock 'hang' under load: " + op[:120])
+                    # not a hang when executed alone: either the machine was loaded, or the hang depends on what ran
+                    # before. The op keeps the verdict 'hang' unless the result alone ALSO agrees with what the model says
+                    # for it (checked by the caller through the normal judge: the alone result replaces the verdict).
+                    ctx.notes.append("op re-run alone after a wall-clock 'hang': " + op[:120] + " -> " + again[0][1][:60])
+                    ctx.rerun_hangs.append(op)
                     impl = again[0][1]
             except Exception as e:  # the confirmation itself failed: keep the verdict
                 ctx.notes.append("hang confirmation failed: %s" % e)
@@ -228,7 +233,19 @@ def stage_corr(ctx, prop, seed_offset=0, scale=1):
         if rc != 0:
             ctx.corr_breaks.append(dict(kind="correspondence", domain=d.name, op="(harness exit %d)" % rc,
                                         impl=se[-500:], model="", spec="", why="harness crashed"))
+        n_before = len(ctx.rerun_hangs)
         run_ops(ctx, d.name, pairs, binp)
+        if len(ctx.rerun_hangs) > n_before:
+            # hangs that did not reproduce alone: the whole domain is run once more with the same seed; an op that hangs
+            # again in its context is a hang of the code, not of the machine
+            suspects = set(ctx.rerun_hangs[n_before:])
+            rc2, pairs2, se2 = core.run_corr(d.name, n, ctx.seed + seed_offset, ctx.tier, corr_bin=binp)
+            again = [(op, impl) for op, impl in pairs2 if op in suspects and impl == "hang"]
+            for op, impl in again:
+                ctx.notes.append("hang reproduced in a second run of the whole domain: " + op[:120])
+                ctx.account(d.name, op, "hang", "(see first run)", "nohang" if prop.id == "C12" else "n/a")
+                ctx.corr_breaks.append(dict(kind="correspondence", domain=d.name, op=op, impl="hang", model="", spec="",
+                                            why="the op does not return when executed in its context (twice)"))
         for k, v in core.STATS.items():
             old = ctx.stats.get(k)
             if old is None or v["value"] > old["value"]:
@@ -320,7 +337,10 @@ def confirm_violations(ctx, prop):
     for v in ctx.violations:
         key = v["key"]
         d = by_dom.get(v.get("domain"))
-        if key in seen or d is None or d.race or ":aliased" in key or ":argument-overwritten" in key or len(seen) >= 6:
+        # only process-level domains (real binary, sockets, sleeps) are timing dependent; an in-process domain is
+        # deterministic for a seed, and a failure there may depend on the ops that ran BEFORE it (state leaking between
+        # calls), so executing the op alone proves nothing
+        if key in seen or d is None or d.race or d.tags != "verif" or ":aliased" in key or ":argument-overwritten" in key or len(seen) >= 6:
             seen.setdefault(key, True)
             if seen[key]:
                 kept.append(v)
